@@ -285,6 +285,38 @@ def parse_tsg(b, tso):
     return regs
 
 
+def parse_sst(b):
+    regs, off = [R("sst", "f", "version", 0, 1)], 1
+    if b[0] != 1 and len(b) > 1:
+        pass
+    while off < len(b):
+        cl = struct.unpack_from("<H", b, off)[0]
+        regs += [R("sst", "col", "cnamelen", off, off + 2), R("sst", "col", "cname", off + 2, off + 2 + cl),
+                 R("sst", "col", "sstlen", off + 2 + cl, off + 6 + cl)]
+        ln = struct.unpack_from("<I", b, off + 2 + cl)[0]
+        r0 = off + 6 + cl
+        end = r0 + ln
+        if end > len(b) or ln < 14:
+            raise vlib.Infra("sst parser: record of %d bytes at %d does not fit" % (ln, r0))
+        isnum = b[r0 + 1]
+        hs = struct.unpack_from("<I", b, r0 + 10)[0]
+        regs += [R("sst", "col", "rver", r0, r0 + 1), R("sst", "col", "isnum", r0 + 1, r0 + 2), R("sst", "col", "count", r0 + 2, r0 + 10),
+                 R("sst", "col", "hllsize", r0 + 10, r0 + 14)]
+        p = r0 + 14
+        if hs:
+            regs.append(R("sst", "col", "hll", p, p + hs))
+        p += hs
+        if isnum and end - p == 35:
+            for _ in range(3):
+                regs += [R("sst", "col", "dtype", p, p + 1), R("sst", "col", "num", p + 1, p + 9)]
+                p += 9
+            regs.append(R("sst", "col", "num", p, p + 8))
+        elif end > p:
+            regs += [R("sst", "col", "dtype", p, p + 1)] + ([R("sst", "col", "strstats", p + 1, end)] if end > p + 1 else [])
+        off = end
+    return regs
+
+
 def parse_generic(kind, b):
     n = len(b)
     cuts = [(0, 1, "b0"), (1, min(16, n), "head"), (min(16, n), max(min(16, n), n - 8), "body"), (max(min(16, n), n - 8), n, "tail")]
@@ -301,6 +333,8 @@ def region_map(path, kind, line_range=None):
         return parse_pqmr(b)
     if kind == "srt":
         return parse_srt(b)
+    if kind == "sst":
+        return parse_sst(b)
     if kind == "tso":
         return parse_tso(b)
     if kind == "tsg":
@@ -435,7 +469,11 @@ def enumerate_faults(files, tier, seed):
     for fi, f in enumerate(files):
         shared = f["kind"] in ("segmeta", "mmeta")
         lo, hi = (f["line"] if shared else (0, f["size"]))
-        starts = set(r["lo"] for r in f["regions"]) | set(r["hi"] - 1 for r in f["regions"])     # first and last byte of every region
+        starts = set(r["lo"] for r in f["regions"])                  # first byte of every region ...
+        if f["kind"] in ("csg", "pqmr", "tso", "tsg", "mbsu", "mnm") or not quick:
+            starts |= set(r["hi"] - 1 for r in f["regions"])         # ... and its last byte (quick: checksummed / small files only)
+        # identical copies (sort index per sort mode, rollups per interval): quick samples the first file of the kind, boundaries of the rest
+        sparse = quick and f["kind"] in ("srt", "crup") and any(g["kind"] == f["kind"] for g in files[:fi])
         hdr = set()
         strict = set()      # bytes of range-checkable fields (spec: RangeChecked): every byte, all three values, in both tiers
         if f["kind"] == "csg":
@@ -445,13 +483,15 @@ def enumerate_faults(files, tier, seed):
         for r in f["regions"]:
             if r["region"] in ("off.hi", "len.hi"):
                 strict.update(range(r["lo"], r["hi"]))
+            if f["kind"] == "sst" and r["region"] in ("dtype", "isnum", "rver"):     # one-byte tags the decoders dispatch on
+                strict.update(range(r["lo"], r["hi"]))
         # truncations: new length L (the first removed byte is L)
         if not shared:
             # checksummed files are sampled densely; sort index / rollup files (never consumed by the query family) sparsely
-            k = (3 if f["kind"] == "csg" else 13) if quick else (4 if f["kind"] in ("srt", "crup") else 1)
+            k = (4 if f["kind"] == "csg" else 13) if quick else (4 if f["kind"] in ("srt", "crup") else 1)
             ph = rnd.randrange(k)
             for L in range(0, f["size"]):
-                if L in starts or L % k == ph:
+                if L in starts or (L % k == ph and not sparse):
                     r = region_at(f, L)
                     cases.append({"fi": fi, "fault": "trunc", "off": L, "val": None, "cls": cls_of(f, r, "trunc", L)})
         # single-byte modifications
@@ -475,7 +515,7 @@ def enumerate_faults(files, tier, seed):
                     vals = three
                 elif o in hdr or o in starts:
                     vals = [rnd.choice(three)]
-                elif o % k == ph:
+                elif o % k == ph and not sparse:
                     vals = [rnd.choice(three)]
                 else:
                     vals = []
@@ -904,6 +944,9 @@ def run(chk):
             if results[i]["cls"] == "crash" and seen_sig.get(sig, 0) >= 2:      # two serial reproductions per (kind, crash site) are enough
                 results[i]["confirmed"] = None
                 continue
+            if results[i]["cls"] == "hang" and seen_sig.get((case["cls"][:3], "hang"), 0) >= 1:   # one confirmed hang per region (60-120 s each)
+                results[i]["confirmed"] = False
+                continue
             d = os.path.join(work, "c%d" % i)
             os.makedirs(d)
             try:
@@ -913,6 +956,8 @@ def run(chk):
                 results[i]["confirm_detail"] = rr["detail"]
                 if results[i]["confirmed"]:
                     seen_sig[sig] = seen_sig.get(sig, 0) + 1
+                    if results[i]["cls"] == "hang":
+                        seen_sig[(case["cls"][:3], "hang")] = 1
                 elif rr["status"] == "ok":
                     cls, det, per = orc.judge(rr)
                     results[i]["recls"] = cls
@@ -1045,7 +1090,7 @@ def run(chk):
                           "by a fresh engine process; distinct_nontrivial = model fault classes (kind/region/fault) in which at least one "
                           "injected fault changed an answer or raised an error (the damaged bytes were consumed by the query family)",
                      exhaustive=not quick,
-                     extra={"tier_plan": ("quick: first/last byte of every region + every 13th (csg: every 3rd) truncation length; chunk-header bytes, region boundaries + every 11th "
+                     extra={"tier_plan": ("quick: first (small and checksummed files: and last) byte of every region + every 13th (csg: every 4th) truncation length; all three values on range-checkable metrics fields and sst type tags; chunk-header bytes, region boundaries + every 11th "
                                           "offset with one of 3 values; model replay candidates (first byte of every csg := each encoding tag, 3 repeats)"
                                           if quick else
                                           "thorough: every truncation length; 3 values at every offset of csg, pqmr and metrics files, 2 values at every offset of "
